@@ -123,7 +123,7 @@ class Obligation:
 
 
 class Interp:
-    def __init__(self, feas_timeout_ms=2000):
+    def __init__(self, feas_timeout_ms=int(__import__("os").environ.get("PYVC_FEAS_MS", "400"))):
         self.obligations = []
         self.axioms = []
         self._axiom_keys = set()
@@ -134,6 +134,7 @@ class Interp:
         self.feas_timeout_ms = feas_timeout_ms
         self._feas_cache = {}
         self._globals_cache = {}
+        self._resolving = set()
         self._class_cache = {}
         self.contracts = {}  # qualname -> Contract
         self.use_contracts = set()
@@ -179,11 +180,18 @@ class Interp:
 
     def func(self, name, *sorts):
         if name not in self.uf:
-            self.uf[name] = z3.Function(name, *sorts)
+            self.uf[name] = z3.Function("pv_" + name, *sorts)
         return self.uf[name]
 
     # ------------------------------------------------------------------ solver
     def check(self, terms, timeout_ms=None):
+        from . import smt
+
+        t0 = time.time()
+        if smt.fast_unsat(list(self.axioms) + list(terms), min(timeout_ms or self.feas_timeout_ms, 1500)):
+            self.stats["solver_s"] += time.time() - t0
+            self.stats["feas_checks"] += 1
+            return "unsat", None
         s = z3.Solver()
         s.set("timeout", timeout_ms or self.feas_timeout_ms)
         for a in self.axioms:
@@ -277,7 +285,13 @@ class Interp:
         key = (mi.name, name)
         if key in self._globals_cache:
             return self._globals_cache[key]
-        val = self._resolve_global(mi, name)
+        if key in self._resolving:
+            raise KeyError(name)  # import cycle
+        self._resolving.add(key)
+        try:
+            val = self._resolve_global(mi, name)
+        finally:
+            self._resolving.discard(key)
         self._globals_cache[key] = val
         return val
 
@@ -296,11 +310,16 @@ class Interp:
             sub = extract.load_module(mod + "." + attr)
             tgt = extract.load_module(mod)
             if tgt is not None:
+                if sub is not None and attr not in tgt.defs and attr not in tgt.assigns:
+                    return ModuleVal(info=sub)
                 if attr in tgt.defs or attr in tgt.assigns or attr in tgt.imports:
                     return self.resolve_global(tgt, attr)
                 if sub is not None:
                     return ModuleVal(info=sub)
-                return Unknown("%s.%s" % (mod, attr))
+                try:
+                    return self.resolve_global(tgt, attr)
+                except KeyError:
+                    return Unknown("%s.%s" % (mod, attr))
             if sub is not None:
                 return ModuleVal(info=sub)
             if mod in self.ext_modules:
@@ -312,6 +331,17 @@ class Interp:
             if mod + "." + attr in self.ext_modules:
                 return ModuleVal(model=mod + "." + attr)
             return Unknown("%s.%s" % (mod, attr))
+        if not name.startswith("_"):
+            mods = [extract.load_module(star) for star in reversed(mi.stars)]
+            mods = [m for m in mods if m is not None]
+            # modules that define the name themselves first, then re-exports
+            for smi in [m for m in mods if name in m.defs or name in m.assigns] + [m for m in mods if not (name in m.defs or name in m.assigns)]:
+                try:
+                    v = self.resolve_global(smi, name)
+                except KeyError:
+                    continue
+                if not isinstance(v, Unknown):
+                    return v
         raise KeyError(name)
 
     def eval_const(self, mi, expr, name="?"):
@@ -451,6 +481,8 @@ class Interp:
                         m[name] = v
                     return v, c
             elif isinstance(c, BuiltinClass):
+                if c.name == "<unresolved-base>":
+                    raise Unsupported("attribute %s looked up through an unresolved base class of %s" % (name, cls.name))
                 continue
         return None, None
 
@@ -1104,6 +1136,11 @@ class Interp:
         if nt is not None:
             yield st, self.models.make_namedtuple(self, st, cls, nt, args, kwargs)
             return
+        if self.is_subclass(cls, BuiltinClass("tuple", tuple)):
+            # class deriving from the builtin tuple (e.g. component._DimensionLink): tuple payload + methods
+            items = tuple(self.iterate(args[0], st)) if args else ()
+            yield st, st.alloc(ObjE(cls, {"__tuple__": items}))
+            return
         obj = st.alloc(ObjE(cls))
         init, where = self.class_lookup(cls, "__init__")
         if init is None:
@@ -1193,7 +1230,7 @@ class Interp:
             yield st, Exc(err)
             return
         self.note_function(f)
-        fr = Frame(vars, f, f.module, f.cls)
+        fr = Frame(vars, f, f.module, f.cls, is_harness=bool(getattr(f.module, "is_harness", False)))
         fr.entry = dict(vars)
         st.frames.append(fr)
         for st1, ctrl in self.ex_block(f.node.body, st):
